@@ -429,6 +429,12 @@ func parseRange(s string, size int64) ([]httpRange, error) {
 			if i > size {
 				i = size
 			}
+			if i == 0 {
+				// A suffix of zero bytes ("-0", or any suffix of an empty file)
+				// selects nothing: it does not overlap.
+				noOverlap = true
+				continue
+			}
 			r.start = size - i
 			r.length = size - r.start
 		} else {
